@@ -4,6 +4,7 @@ import (
 	"encoding/json"
 	"math"
 	"os"
+	"sort"
 	"strconv"
 	"strings"
 	"sync"
@@ -182,9 +183,11 @@ func (g *sessGen) call(write, allowDirect bool, cat *lungo.Catalog) *sessCall {
 			c.M = "findOne"
 			c.Q = g.filter(docs)
 			g.sortOpt(c, 30)
-		case n < 90:
+		case n < 86:
 			c.M = "count"
 			c.Q = g.filter(docs)
+		case n < 92:
+			c.M = "estCount"
 		default:
 			c.M = "listIndexes"
 		}
@@ -227,24 +230,46 @@ func (g *sessGen) call(write, allowDirect bool, cat *lungo.Catalog) *sessCall {
 	case n < 81:
 		c.M = "deleteMany"
 		c.Q = g.filter(docs)
-	case n < 90 || !allowDirect:
+	case n < 86:
 		c.M = "findOneAndUpdate"
 		c.Q, c.U, c.Upsert, c.After = g.filter(docs), g.update(), r.P(20), r.P(50)
 		g.sortOpt(c, 30)
-	case n < 96:
-		g.direct(c, true)
+	case n < 90 || !allowDirect:
+		c.M = "findOneAndDelete"
+		c.Q = g.filter(docs)
+		g.sortOpt(c, 30)
 	default:
-		g.direct(c, false)
+		g.direct(c, cat)
 	}
 	return c
 }
 
-func (g *sessGen) direct(c *sessCall, index bool) {
-	if index {
+// direct makes c one of the calls that take the writer slot with engine.Begin directly.
+func (g *sessGen) direct(c *sessCall, cat *lungo.Catalog) {
+	r := g.r
+	switch n := r.N(100); {
+	case n < 45:
 		c.M = "createIndex"
-		c.Keys = bson.D{{Key: g.key(), Value: int32(1 - 2*g.r.N(2))}}
-		c.Unique = g.r.P(35)
-	} else {
+		c.Keys = bson.D{{Key: g.key(), Value: int32(1 - 2*r.N(2))}}
+		c.Unique = r.P(35)
+	case n < 60:
+		c.M = "dropIndex"
+		c.Name = g.key() + "_1"
+		if cat != nil {
+			if ns := cat.Namespaces[lungo.Handle{sessDB, c.Coll}]; ns != nil && len(ns.Indexes) > 0 && r.P(75) {
+				names := make([]string, 0, len(ns.Indexes))
+				for name := range ns.Indexes {
+					names = append(names, name)
+				}
+				sort.Strings(names)
+				c.Name = names[r.N(len(names))]
+			}
+		}
+	case n < 68:
+		c.M = "dropAllIndexes"
+	case n < 80:
+		c.M = "createCollection"
+	default:
 		c.M = "dropCollection"
 	}
 }
@@ -301,7 +326,7 @@ func (g *sessGen) next() *sessStep {
 		case n < 50:
 			st.K, st.Sid = "call", h // direct Begin inside the transaction: nested
 			st.C = &sessCall{Coll: g.coll()}
-			g.direct(st.C, r.P(60))
+			g.direct(st.C, view)
 		case n < 60:
 			st.K = "call"
 			st.C = g.call(false, true, m.engine.Catalog())
@@ -440,6 +465,7 @@ func sessStepOfReq(r reqObj) (st *sessStep, err error) {
 		c.Keys = r.doc("keys")
 	}
 	c.Unique = r.boolean("unique")
+	c.Name = r.str("name")
 	st.C = c
 	return st, nil
 }
